@@ -151,6 +151,33 @@ SF = ["barrier_noop", "sf_*: field operations replaced by arithmetic in GF(13) (
       "fp_from_repr_spec", "is_valid stub: the acceptance test of Fp::random is assumed to pass (one pass of the rejection loop)"]
 
 
+def family_cases(name, n=40):
+    """native realisation = the first n scenarios of a native family (harnesses whose model values
+    live in an abstraction and cannot be mapped back byte by byte)"""
+    def f(o, info):
+        from vlib import mir_engine as ME
+        return ME.NATIVE_FAMILIES[name](1, "thorough")[:n]
+    return f
+
+
+def dealer_cases(o, info):
+    """native realisation for the GF(13) dealing / evaluation harnesses"""
+    cs = [{"kind": "dealer_model", "t": t, "elements": k, "tail": tail} for t in (1, 2, 3, 4) for k, tail in ((1, 0), (2, 0), (1, 23), (0, 23))]
+    cs += [{"kind": "dealer_draws", "t": t, "elements": 1} for t in (2, 3, 256, 257)]
+    return cs
+
+
+def interp_cases(o, info):
+    """native realisation for the interpolation harnesses: textbook Lagrange on fixed points"""
+    from vlib import mir_engine as ME
+    hx = lambda v: "hex:" + v.to_bytes(24, "little").hex()
+    out = []
+    for t, xs in ((2, (0, 3)), (2, (5, 2)), (2, (ME.P - 1, 1)), (3, (1, 2, 3)), (3, (0, 7, 2**128)), (3, (9, 4, 11))):
+        sh = [{"x": hx(x), "y": [1000 + 17 * i, 5 + i]} for i, x in enumerate(xs)]
+        out.append({"kind": "recover_case", "t": t, "shares": sh, "expect": ME.recover_reference(t, sh)})
+    return out
+
+
 def c06(tier, seed):
     obs = []
     for h, q, claim in [
@@ -161,27 +188,28 @@ def c06(tier, seed):
         ("c06_dealer_k2_t2", "q", "two secret elements: two independent polynomials, draws in order"),
         ("c06_dealer_k0_tail23", "q", "a secret shorter than one element: no polynomial, no randomness used"),
     ]:
-        obs.append(K("c06::" + h, tier=q, cap=300, must_cover=["reached"],
+        obs.append(K("c06::" + h, tier=q, cap=300, to_case=dealer_cases, must_cover=["reached"],
                      claim="dealing: polynomials of exactly t coefficients, constant term = secret element, every other coefficient a separate draw (3 words each) of the supplied source; sequential iterator yields x = 1,2,3 on them (Horner reference). " + claim,
                      bounds="k <= 2 secret elements, t <= 3, every secret value / draw in GF(13)", stubs=SF,
                      functions=["Sharks::dealer_rng", "random_polynomial", "get_evaluator", "Evaluator::next", "Evaluator::evaluate"]))
-    obs.append(K("c06::c06_dealer_range_t1", cap=300, must_cover=["accepted", "refused"],
+    obs.append(K("c06::c06_dealer_range_t1", cap=300, to_case=dealer_cases, must_cover=["accepted", "refused"],
                  claim="a secret containing an element not below the modulus is refused, never altered; in-range secrets are accepted",
                  bounds="all 48-byte secrets", stubs=["barrier_noop", "fp_from_repr_spec"], functions=["Sharks::dealer_rng"]))
     obs.append(K("c06::c06_gen_nonzero", cap=600, must_cover=["resampled twice", "resampled once", "accepted at once"],
                  # the harness' random source is a stub: natively the same thing is a scripted source
                  # that yields one, two and three zero candidates before a non-zero one
-                 to_case=lambda o, info: [{"kind": "gen_script", "t": 2, "words": [0] * (3 * k) + [5, 0, 0]} for k in (1, 2, 3)],
+                 to_case=lambda o, info: [{"kind": "gen_script", "t": 2, "words": [0] * (3 * k) + [5, 0, 0]} for k in (1, 2, 3)] +
+                 [{"kind": "gen_script", "t": 2, "words": [str(x) for x in w] + ["7", "0", "0"]} for w in ([12450, 0, 1], [12449, 0, 1], [1, 0, 0], [0, 12451, 0], [12451, 18446744073709539165, 0])],
                  claim="Evaluator::gen: the share point is the accepted draw of the supplied source, never 0, and the value is the polynomial at that point",
                  bounds="at most two resamples (third candidate assumed non-zero)", stubs=SF, functions=["Evaluator::gen", "Evaluator::evaluate"]))
-    obs.append(K("c06::c06_interpolate_t2", cap=300, must_cover=["reached"],
+    obs.append(K("c06::c06_interpolate_t2", cap=300, to_case=interp_cases, must_cover=["reached"],
                  claim="interpolate == textbook Lagrange value at 0 (reference model in the harness) for all distinct points and all values",
                  bounds="t = 2, GF(13)", stubs=SF, functions=["interpolate"]))
-    obs.append(K("c06::c06_interpolate_t3", cap=600, tier="q", must_cover=["reached"],
+    obs.append(K("c06::c06_interpolate_t3", cap=600, tier="q", to_case=interp_cases, must_cover=["reached"],
                  claim="interpolate == textbook Lagrange value at 0 for all distinct points and all values",
                  bounds="t = 3, GF(13)", stubs=SF, functions=["interpolate"]))
     for h in ("c06_dealer_t256", "c06_dealer_t257"):
-        obs.append(K("c06::" + h, tier="t", cap=1800, must_cover=["reached"],
+        obs.append(K("c06::" + h, tier="t", cap=1800, to_case=dealer_cases, must_cover=["reached"],
                      claim="exactly t-1 coefficient draws also where a narrowed counter would wrap", bounds="t = 256 / 257", stubs=SF,
                      functions=["random_polynomial", "Sharks::dealer_rng"]))
     obs.append(M("mir::recover-structure",
@@ -254,7 +282,7 @@ def c08(tier, seed):
                      to_case=(lambda n: (lambda o, info: [{"kind": "c08_store", "data": (flat_bytes(info, n) or b"").hex()}] if flat_bytes(info, n) is not None and len(flat_bytes(info, n)) == n else []))(n)))
     adss_st = dec + ["f1600_ro: Keccak-f as collision-free random oracle", "OsRng -> arbitrary words", "is_valid stub (one pass of Fp::random)", "field mul/invert by the C07 field laws"]
     for h, q in [("c08_honest_roundtrip_1_1", "q"), ("c08_honest_roundtrip_4_0", "t")]:
-        obs.append(K("c16::" + h, tier=q, cap=900, mem=30, must_cover=["reached"],
+        obs.append(K("c16::" + h, tier=q, cap=900, mem=30, to_case=family_cases("native::c16-scenarios", 60), must_cover=["reached"],
                      claim="an honestly generated ADSS share encodes as A(4 LE)|len|x(24)|y(24)|len|C|len|D|J(64) and decode(encode(v)) == v",
                      bounds="message/coins lengths per harness name, threshold 1 or 2, all contents", stubs=adss_st,
                      functions=["adss::Commune::share", "adss::Share::to_bytes", "adss::Share::from_bytes"]))
@@ -332,7 +360,7 @@ def c04(tier, seed):
                  claim="the labelled PRF of derive_random_values (strobe_digest(rnd, [i])) gives equal outputs iff (rnd, i) equal: key seed, coins and tag are separated",
                  bounds="32-byte keys, 1-byte label, all contents", stubs=STROBE, functions=["strobe_digest"], to_case=tcd))
     for h, q in (("c16_structure_m1_r1_t1", "q"), ("c16_structure_m4_r4_t2", "q")):
-        obs.append(K("c16b::" + h, tier=q, cap=600, must_cover=["reached"],
+        obs.append(K("c16b::" + h, tier=q, cap=600, must_cover=["reached"], to_case=structure_case(*STRUCT_SHAPES[h]),
                      claim="every share draws its own evaluation point from the OS RNG *after* everything else of the share was computed (so tag/key/C/D/J/polynomial do not depend on it); t-1 coefficients come from the transcript RNG",
                      bounds="see C16", stubs=ADSS, functions=["adss::Commune::share"]))
     obs.append(M("native::c04-triples", "concrete cross-check on the natively compiled crates (not a solver query; produces replayable counterexamples when a change rewrites code into a shape the symbolic engines refuse): pairs of (measurement, epoch, threshold) triples that differ in one component, by a byte moved across the measurement/epoch boundary, or only in bytes that are not valid UTF-8 (0x80, 0xff, 0xc0 0x80, U+FFFD itself), thresholds 1, 2, 257, 65537, 2^32-1: randomness, tag and key equal iff the triples are equal; independent shares of equal triples have different points; a non-zero output buffer does not influence the randomness", bounds="concrete, ~250 (quick) / ~490 pairs"))
@@ -357,20 +385,33 @@ def adss_case(o, info, layout, **kw):
     return [c]
 
 
+STRUCT_SHAPES = {"c16_structure_m1_r1_t1": (1, 1, 1), "c16_structure_m4_r4_t2": (4, 4, 2)}
+
+
+def structure_case(ml, rl, t):
+    """replay cases for a failing share-structure harness"""
+    def tc(o, info):
+        v = lay(info, [("m", 8), ("r", 8)])
+        if not v:
+            return []
+        cs = [{"kind": "adss_scenario", "m": v["m"][:ml].hex(), "r": v["r"][:rl].hex(), "t": t, "n_shares": t, "expect_ok": True}]
+        # the same contents with one message / coin byte flipped: coefficients must differ
+        m2 = bytes([v["m"][0] ^ 1]) + v["m"][1:ml] if ml else b""
+        r2 = v["r"][:rl] if ml else (bytes([v["r"][0] ^ 1]) + v["r"][1:rl] if rl else b"")
+        cs.append({"kind": "adss_coeffs", "m": v["m"][:ml].hex(), "r": v["r"][:rl].hex(), "m2": m2.hex(), "r2": r2.hex()})
+        # a change in the number / order of cipher operations shows natively only when message and
+        # coins have different lengths (one of them empty)
+        cs.append({"kind": "adss_scenario", "m": "", "r": v["r"][:4].hex(), "t": max(t, 1), "n_shares": max(t, 1), "expect_ok": True})
+        cs.append({"kind": "adss_scenario", "m": v["m"][:4].hex(), "r": "", "t": max(t, 1), "n_shares": max(t, 1), "expect_ok": True})
+        return cs
+    return tc
+
+
 def c16(tier, seed):
     obs = []
     for h, (ml, rl, t), q in (("c16_structure_m1_r1_t1", (1, 1, 1), "q"), ("c16_structure_m4_r4_t2", (4, 4, 2), "q"),
                               ("c16_structure_m0_r0_t1", (0, 0, 1), "q"), ("c16_structure_m4_r0_t3", (4, 0, 3), "t")):
-        def tc(o, info, ml=ml, rl=rl, t=t):
-            v = lay(info, [("m", 8), ("r", 8)])
-            if not v:
-                return []
-            cs = [{"kind": "adss_scenario", "m": v["m"][:ml].hex(), "r": v["r"][:rl].hex(), "t": t, "n_shares": t, "expect_ok": True}]
-            # the same contents with one message / coin byte flipped: coefficients must differ
-            m2 = bytes([v["m"][0] ^ 1]) + v["m"][1:ml] if ml else b""
-            r2 = v["r"][:rl] if ml else (bytes([v["r"][0] ^ 1]) + v["r"][1:rl] if rl else b"")
-            cs.append({"kind": "adss_coeffs", "m": v["m"][:ml].hex(), "r": v["r"][:rl].hex(), "m2": m2.hex(), "r2": r2.hex()})
-            return cs
+        tc = structure_case(ml, rl, t)
         obs.append(K("c16b::" + h, tier=q, cap=600, must_cover=["reached"],
                      claim="share(): everything except the point and the values at it is computed before the single OS draw, hence a deterministic function of (threshold, message, coins); exactly t-1 coefficient draws from the transcript-seeded RNG; J = MAC output over (A, M, R), C = M xor keystream(K), D = R xor keystream(K, C); every permutation call is chained (capacity lanes) to its Strobe object: J, K and then every coefficient draw continue the one transcript that absorbed A, M, R; for t = 1 the value is K||0",
                      bounds="|M|=%d |R|=%d t=%d, all contents" % (ml, rl, t), stubs=ADSS, functions=["adss::Commune::share", "adss::Share::to_bytes", "StrobeRng", "Sharks::dealer_rng", "Evaluator::gen"], to_case=tc))
@@ -451,7 +492,7 @@ def c02(tier, seed):
                  bounds="2-byte message", stubs=ADSS, functions=["adss::recover"],
                  to_case=lambda o, info: adss_case(o, info, [("m", 2)], t=2, n_shares=1)))
     for h in ("c16_structure_m1_r1_t1", "c16_structure_m4_r4_t2"):
-        obs.append(K("c16b::" + h, tier="q", cap=600, must_cover=["reached"],
+        obs.append(K("c16b::" + h, tier="q", cap=600, must_cover=["reached"], to_case=structure_case(*STRUCT_SHAPES[h]),
                      claim="structural non-disclosure of one share: every byte of the encoded share is a public length/threshold, the OS-drawn point, a polynomial value, M xor keystream, R xor keystream' or the MAC output; K, M, R never appear as such (t >= 2); polynomial has exactly t-1 separately drawn coefficients",
                      bounds="see C16", stubs=ADSS, functions=["adss::Commune::share"]))
     obs.append(K("c16b::c05_fault_threshold", tier="t", cap=2400, mem=50, must_cover=["rejected"],
@@ -497,6 +538,17 @@ def c03(tier, seed):
                  claim="two payloads under the key of one measurement: the ciphertext difference must not equal the plaintext difference (fails: D7, known finding)",
                  bounds="6-byte payloads", stubs=STROBE, functions=["Ciphertext::new", "Message::generate (native replay)"], to_case=tcr,
                  known_role="keystream-reuse-first-block"))
+    def tcr2(o, info):
+        v = lay(info, [("key", 16), ("d1", 182), ("d2", 182)])
+        if not v:
+            return []
+        a1 = v["d1"][9:]
+        # the native realisation needs plaintexts that differ beyond the first block as well
+        a2 = v["d2"][9:157] + bytes(b ^ 0x55 for b in a1[157:])
+        return [{"kind": "c03_reuse", "m": "6d", "e": "65", "t": 2, "aux1": a1.hex(), "aux2": a2.hex(), "from_offset": 166}]
+    obs.append(K("c03::c03_keystream_second_block", cap=900, mem=16, must_cover=["reached"], unwindset=[("strobe_rs::", 184)] + RULES, to_case=tcr2,
+                 claim="two payloads under one key that differ in the first rate block: on positions 166..182 the ciphertext difference is not the plaintext difference (the second block's keystream depends on the first ciphertext block) - the reuse of D7 does not extend past the first block",
+                 bounds="182-byte payloads, all contents", stubs=STROBE, functions=["Ciphertext::new"]))
     for e1, e2 in ((1, 1),):
         obs.append(K("c03::c04_ske_sep_%d_%d" % (e1, e2), cap=400, must_cover=["equal", "different"],
                      claim="the payload key is derive_ske_key(r0, epoch): a function of secret r0 (not carried in the report: r0 only appears as C = r0 xor keystream(K))", bounds="see C04", stubs=STROBE))
@@ -514,7 +566,7 @@ def c03(tier, seed):
 def c01(tier, seed):
     obs = []
     for h in ("c01_framing_3_2", "c01_framing_0_0", "c01_framing_3_none"):
-        obs.append(K("c03::" + h, cap=300, must_cover=["reached"],
+        obs.append(K("c03::" + h, cap=300, must_cover=["reached"], to_case=family_cases("native::e2e-scenarios", 60),
                      claim="payload framing len|measurement [len|aux]: parses back to exactly the measurement and the associated data; absent and empty associated data are distinguishable",
                      bounds="measurement / aux up to 4 bytes", functions=["store_bytes", "load_bytes"]))
     def gen_case(ml, al, has_aux):
@@ -535,7 +587,8 @@ def c01(tier, seed):
                 xs.append(v[k])
             sel.append(xs.index(v[k]))
         return [{"kind": "star_e2e", "m": "6d6561", "e": "6531", "t": int.from_bytes(v["t"], "little"),
-                 "aux": [None] * len(xs), "selection": sel}]
+                 "aux": [None] * len(xs), "selection": sel}] + \
+               [{"kind": "adss_mixed", "ma": "0a0b", "ra": "01", "mb": "0c0d0e", "rb": "02", "t": t, "rounds": 8} for t in (1, 2)]
     obs.append(K("c16b::c01_selection_reaches_shamir_3", cap=300, must_cover=["repeat first", "surplus", "too few"], to_case=sel_case,
                  claim="adss::recover consults the Shamir layer with the first share's threshold t and hands it at least min(t, #distinct) distinct points of the selection: repeated or surplus reports never crowd out a distinct share",
                  bounds="3 shares, arbitrary points (every equality pattern and order), t in 1..=3, other thresholds arbitrary",
@@ -551,7 +604,7 @@ def c01(tier, seed):
     obs.append(K("c03::c03_masking_12", cap=400, must_cover=["reached"], claim="Ciphertext::decrypt under the same key inverts Ciphertext::new", bounds="12-byte payload", stubs=STROBE))
     obs.append(K("c03::c04_ske_sep_1_1", cap=400, must_cover=["equal", "different"], claim="the server re-derives the clients' payload key from (recovered message, epoch): derive_ske_key is a function of exactly these", bounds="see C04", stubs=STROBE))
     obs.append(K("c16::c08_honest_roundtrip_1_1", cap=900, mem=30, must_cover=["reached"], claim="an honestly generated share survives encode -> decode unchanged", bounds="see C08", stubs=ADSS))
-    obs.append(K("c16b::c16_structure_m4_r4_t2", cap=600, must_cover=["reached"], claim="all clients of one (threshold, message, coins) sharing hold points of one polynomial (coefficients and C, D, J do not depend on the client's OS draw)", bounds="see C16", stubs=ADSS))
+    obs.append(K("c16b::c16_structure_m4_r4_t2", cap=600, must_cover=["reached"], to_case=structure_case(4, 4, 2), claim="all clients of one (threshold, message, coins) sharing hold points of one polynomial (coefficients and C, D, J do not depend on the client's OS draw)", bounds="see C16", stubs=ADSS))
     obs.append(M("mir::recover-structure", "any selection containing t distinct shares reaches interpolation with exactly the first t distinct ones: order, repeated and surplus reports do not matter", bounds="n <= 3/4"))
     obs.append(K("c06::c06_interpolate_t2", cap=300, must_cover=["reached"], claim="interpolation of t distinct points is the Lagrange value at 0", bounds="t=2, GF(13)", stubs=SF))
     obs.append(K("c06::c06_interpolate_t3", cap=600, tier="t", must_cover=["reached"], claim="as above", bounds="t=3, GF(13)", stubs=SF))
@@ -574,6 +627,9 @@ GGM_ASSUME = ["bitvec's BitVec/BitSlice and std's Vec are modelled semantically 
               "GGMPuncturableKey::new / GGM::setup are executed from the MIR too (bitvec's bits![..] literals and the vec![..] lowering are modelled); the OS seed is an opaque root, the two generators are distinguished by the order of their setup() calls"]
 
 
+NAT = "concrete cross-check on the natively compiled crates (not a solver query; turns 'the interpreter refuses the rewritten code' into a replayable counterexample): "
+
+
 def ggm_spec(tier, seed, fam, what):
     obs = []
     for k, q in ((1, "q"), (2, "q"), (3, "t")):
@@ -581,6 +637,9 @@ def ggm_spec(tier, seed, fam, what):
                      tier=q, bounds="k = %d punctures, 8-bit inputs fully symbolic; no input is enumerated (the interpreter forks only on which retained node covers an input)" % k,
                      functions=["<GGM as PPRF>::eval", "<GGM as PPRF>::puncture", "GGM::partial_eval", "GGM::bit_eval", "GGMPuncturableKey::find_prefix", "GGMPuncturableKey::puncture", "bvcast_u8_to_usize"],
                      ggm=("history", k), tags=[fam, "c10::fresh", "c10::wrong"] if fam == "c10::" else [fam]))
+    obs.append(M("native::ggm-sweep", "%sreal GGM with the real Strobe PRG: all 256 values pairwise distinct; wrong lengths refused with the key unchanged; every (puncture, probe) pair of the domain; 400 seeded histories of 2..6 punctures (sibling-first, neighbours, repeats) probed at the punctured inputs, their siblings and random inputs: punctured inputs fail, all others keep their value" % NAT, bounds="concrete, seeded"))
+    if fam == "c11::":
+        obs.append(M("native::server-histories", "%sexported key state of a real Server after concrete puncture histories (via the server scenarios): see C14" % NAT, bounds="concrete"))
     return {
         "obligations": obs, "level": "model_checking",
         "bounds": "histories of up to 3 punctures (any order, any repeats) + 1 probe over the full 8-bit domain, symbolically",
@@ -606,6 +665,7 @@ def c14(tier, seed):
                      tier=q, bounds="k = %d punctures; tags and the requested tag fully symbolic (8 bits); registered sets concrete; non-verifiable mode (the proof path is group arithmetic: C13)" % k,
                      functions=["Server::new", "Server::eval", "Server::puncture", "Server::set_private_key", "ServerPublicKey::get", "<GGM as PPRF>::eval", "<GGM as PPRF>::puncture"],
                      ggm=("server", k), tags=["c14::"]))
+    obs.append(M("native::server-histories", "%sreal Server (real Ristretto, real GGM): registered sets {0,255}, {1,2}, {}, a set with a repeated tag, a 7-tag set; fixed and seeded puncture histories incl. sibling orders: public key registers exactly the given tags and never changes; a tag is punctured exactly once; for every tag 0..255 the server answers iff decodable, registered and unpunctured, with the documented error otherwise, and with the untouched server's answer; clones evolve independently; export -> JSON -> import into a fresh server and into a stale replica gives the exporter's answers for all 256 tags and the same public key, also after one more puncture on both" % NAT, bounds="concrete, seeded"))
     return {
         "obligations": obs, "level": "model_checking",
         "bounds": "operation sequences: k <= 3 punctures (symbolic tags) then one request; registered sets {0,255}, {1,2}, {}",
@@ -626,9 +686,23 @@ def get(pid, tier, seed):
     spec = f(tier, seed)
     if tier == "quick":
         spec["obligations"] = [o for o in spec["obligations"] if o.get("tier", "q") == "q"]
+    # a harness registered under several properties maps its counterexamples to replay cases
+    # the same way everywhere (the mapping is written once, where the harness is introduced)
+    global _CASES
+    if _CASES is None:
+        _CASES = {}
+        for g in TABLE.values():
+            for x in g("thorough", seed)["obligations"]:
+                if x.get("engine") == "kani" and x.get("to_case") is not None:
+                    _CASES.setdefault(x["harness"], x["to_case"])
     for o in spec["obligations"]:
         o["stubs"] = [STUB_DOC.get(s, s) for s in o.get("stubs", [])]
+        if o.get("engine") == "kani" and o.get("to_case") is None and o["harness"] in _CASES:
+            o["to_case"] = _CASES[o["harness"]]
     return spec
+
+
+_CASES = None
 
 
 def match_known(known, pid, o, case):
